@@ -520,18 +520,31 @@ for _B in my_betas:
         ctx.add(rule, 'bioResults.get_beta_values', ok, f, 'the value of a requested name is betas[betaNames.index(name)]' if ok
                 else f'the position of a requested name is looked up in {tbl}: betas follow betaNames, so the value of another parameter is returned as soon as the request is not the full sorted list', tbl)
     f = BR.methods['get_betas_for_sensitivity_analysis']
-    comps = [c for c in walk_no_nested(f.node) if isinstance(c, ast.ListComp) and isinstance(c.elt, ast.DictComp)]
+    def zipped(e):
+        return isinstance(e, ast.Call) and isinstance(e.func, ast.Name) and e.func.id == 'dict' and len(e.args) == 1 and isinstance(e.args[0], ast.Call) and unparse(e.args[0].func) == 'zip'
+
+    comps = [c for c in walk_no_nested(f.node) if isinstance(c, ast.ListComp) and (isinstance(c.elt, ast.DictComp) or zipped(c.elt))]
     verdict = True if len(comps) >= 2 else None
     det = ''
     for c in comps:
         b = {}
-        if not m_node(_parse('[{__LABEL: _V for _I, _V in enumerate(_ROW)} for _ROW in __M[:, _IDX]]')[0].value, c, b):
-            verdict, det = None, unparse(c)[:160]
-            continue
-        label = unparse(b['__LABEL'][1])
-        # inside the comprehension the metavariable _I is local: recover its name from the generator
-        ivar = unparse(c.elt.generators[0].target.elts[0])
-        if label != f'my_betas[{ivar}]':
+        if zipped(c.elt):
+            # the same table written dict(zip(<labels>, row)): column i of the selection gets the i-th label
+            if not m_node(_parse('[dict(zip(__LABELS, _ROW)) for _ROW in __M[:, _IDX]]')[0].value, c, b):
+                verdict, det = None, unparse(c)[:160]
+                continue
+            label, ivar = unparse(b['__LABELS'][1]), None
+            if label != 'my_betas':
+                verdict, det = False, f'values of the selected columns are labelled with the names of {label} in turn; column i of the selection belongs to my_betas[i]'
+                break
+        else:
+            if not m_node(_parse('[{__LABEL: _V for _I, _V in enumerate(_ROW)} for _ROW in __M[:, _IDX]]')[0].value, c, b):
+                verdict, det = None, unparse(c)[:160]
+                continue
+            label = unparse(b['__LABEL'][1])
+            # inside the comprehension the metavariable _I is local: recover its name from the generator
+            ivar = unparse(c.elt.generators[0].target.elts[0])
+        if ivar is not None and label != f'my_betas[{ivar}]':
             verdict, det = False, f'values of the selected columns are labelled {label}; column i of the selection belongs to my_betas[i]'
             break
         defs = [a for a in walk_no_nested(f.node) if isinstance(a, ast.Assign) and unparse(a.targets[0]) == b['_IDX'] and seq(a) < seq(c)]
